@@ -19,15 +19,16 @@ THOROUGH = dict(ValChars={"0", "1", "a", "."}, Digits={"0", "1"}, MaxLen=6, MaxS
 SIM = dict(ValChars={"0", "1", "2", "a", "b", "."}, Digits={"0", "1", "2"}, MaxLen=12, MaxSpaces=3, SpaceMaxLen=12, AllParams=False)
 
 # (unit, timespan given as timedelta, falsy lookup values, error object given, HistoricalScheduler instead of TestScheduler)
-VARIANTS = [(1.0, False, False, True, False), (0.5, True, True, False, True), (2.0, False, True, True, False)]
+# the third variant's lookup maps its keys TO the strings "|" / "#" (and has the terminal characters as keys)
+VARIANTS = [(1.0, False, False, True, False, False), (0.5, True, True, False, True, False), (2.0, False, False, True, False, True)]
 
 
 def _job(ln):
     out = []
     n = 0
-    for unit, td, falsy, we, hist in VARIANTS:
+    for unit, td, falsy, we, hist, term in VARIANTS:
         n += 1
-        out += mc.judge(ln["scn"], ln["obs"], unit=unit, as_timedelta=td, falsy=falsy, with_error=we, hist=hist)
+        out += mc.judge(ln["scn"], ln["obs"], unit=unit, as_timedelta=td, falsy=falsy, with_error=we, hist=hist, term=term)
     return n, out
 
 
@@ -117,7 +118,7 @@ def run(tier: str) -> int:
 def replay(rec) -> int:
     api = rec["api"].split(".")[0]
     fails = mc.judge(rec["scn"], rec["expected"], unit=rec.get("unit", 1.0), as_timedelta=rec.get("as_timedelta", False),
-                     falsy=rec.get("falsy", False), with_error=rec.get("with_error", True), hist=rec.get("hist", False), apis=(api,))
+                     falsy=rec.get("falsy", False), with_error=rec.get("with_error", True), hist=rec.get("hist", False), term=rec.get("term", False), apis=(api,))
     fails = [f for f in fails if f["api"] == rec["api"]]
     print(json.dumps(fails[0], default=str)[:2000] if fails else "replay: observation allowed by the spec")
     return 1 if fails else 0
